@@ -47,6 +47,8 @@ VARPOW_TOL = 1e-7
 
 _DATA = os.path.join(env.SRC, 'tests', 'test_data')
 
+MAX_STEPS = 8000
+
 
 def cases(tier, seed):
     n = 70 if tier == 'quick' else 700
@@ -148,7 +150,7 @@ def run_power(case, res):
                                            if v is not None)
 
     with drive.scratch() as d, Hooks() as hk:
-        inp, r = drive.build(P, d)
+        inp, r = drive.build(P, d, max_steps=MAX_STEPS)
         if rng.random() < 0.5:
             # user step: from the limit down to 1/20 of it
             P['setup']['axial_mesh_size'] = float(
@@ -157,7 +159,7 @@ def run_power(case, res):
         else:
             feats['user_dz'] = None
     with drive.scratch() as d, Hooks() as hk:
-        inp, r = drive.build(P, d)
+        inp, r = drive.build(P, d, max_steps=MAX_STEPS)
         if len(r.z) > 8000:
             res.status('rejected', 'too many steps')
             res.tag('skipped_too_many_steps')
@@ -211,7 +213,7 @@ def run_linear(case, res):
     for sc in (1.0, s):
         P['power']['scaling'] = sc
         with drive.scratch() as d:
-            inp, r = drive.build(P, d)
+            inp, r = drive.build(P, d, max_steps=MAX_STEPS)
             drive.sweep(r)
             a = r.assemblies[0]
             f = [a.active_region.temp['coolant_int'].copy(),
